@@ -1,12 +1,12 @@
 (* C18 proofs, part 6: what the 32-bit CRC does guarantee for torn states: two payloads of the same length that
    differ only inside a window of at most 4 consecutive bytes never have the same CRC-32.  (A collision as in
    crash_collision_witness therefore needs old and new bytes that differ over more than 32 bits.) *)
-From CppcmsV Require Import Base.Tac Base.Sweep C18.Defs C18.Proofs C18.Link.
+From CppcmsV Require Import Base.Tac Base.Sweep C18.Defs C18.Proofs C18.Link C18.Crash.
 Local Open Scope N_scope.
 
 Lemma lxor_cancel_r a b c : N.lxor a c = N.lxor b c -> a = b.
 Proof.
-  intros H. apply N.lxor_eq. rewrite <- (N.lxor_nilpotent c).
+  intros H. apply N.lxor_eq.
   replace (N.lxor a b) with (N.lxor (N.lxor a c) (N.lxor b c)) by bits.
   rewrite H. apply N.lxor_nilpotent.
 Qed.
@@ -207,4 +207,35 @@ Proof.
   assert (crc_update M32 pre < 2 ^ 32) as Hs0 by (apply crc_update_lt; [vm_compute; reflexivity|exact Hp]).
   apply crc_suffix_inj in H; [|apply crc_update_lt; assumption|apply crc_update_lt; assumption|exact Hs].
   apply (crc_window_inj (crc_update M32 pre)); assumption.
+Qed.
+
+(* what is read under the new header has the deadline, length and CRC of the new value *)
+Lemma new_header_read now F t d p r t' d' :
+  s64_ok t -> bytes_ok d -> small d -> 16 <= p ->
+  read_from_file now (crash_file F (new_image t d) (p :: r)) = Some (t', d') ->
+  t' = t /\ length d' = length d /\ crc32 d' = crc32 d.
+Proof.
+  intros Ht Hd Hs Hp Hr.
+  pose proof (crash_header_new F t d p r Hs Hp) as E.
+  set (C := crash_file F (new_image t d) (p :: r)) in *.
+  destruct (read_spec now C t' d' Hr) as (_ & Et & _ & El & Ec & _).
+  rewrite (hdr_deadline_16 C), E, hdr_deadline_header in Et by exact Ht.
+  rewrite (hdr_crc_16 C), E, hdr_crc_header in Ec by exact Hd.
+  rewrite (hdr_size_16 C), E, hdr_size_header in El.
+  unfold small in Hs. rewrite N.mod_small in El by (change (2 ^ 32) with 4294967296; change (2 ^ 31) with 2147483648 in Hs; lia).
+  repeat split; try assumption. lia.
+Qed.
+
+(* a torn state read under the new header that differs from the new value only inside a window of at most
+   4 consecutive bytes is never accepted: if load returns it, it is the new value *)
+Lemma torn_window_detected now F t d p r t' d' pre x y suf :
+  s64_ok t -> bytes_ok d -> small d -> 16 <= p ->
+  read_from_file now (crash_file F (new_image t d) (p :: r)) = Some (t', d') ->
+  d = pre ++ y ++ suf -> d' = pre ++ x ++ suf -> bytes_ok x -> length x = length y -> (length x <= 4)%nat ->
+  d' = d.
+Proof.
+  intros Ht Hd Hs Hp Hr Ed Ed' Hx Hl H4.
+  destruct (new_header_read now F t d p r t' d' Ht Hd Hs Hp Hr) as (_ & _ & Ec).
+  subst d d'. apply bytes_ok_app in Hd. destruct Hd as [Hpre Hd]. apply bytes_ok_app in Hd. destruct Hd as [Hy Hsuf].
+  rewrite (crc32_burst_detected pre x y suf Hpre Hx Hy Hsuf Hl H4 Ec). reflexivity.
 Qed.
